@@ -54,6 +54,7 @@ type Case struct {
 	Behaviour string `json:"behaviour"` // pass | replace-reply | replace-error | context
 	Proxied   bool   `json:"proxied"`   // the service is a backend registered with RegisterConn
 	Meta      bool   `json:"meta"`      // the handler sets header and trailer metadata
+	StrayBody string `json:"stray_body"` // httpget: body sent although the binding maps none ("" = none; a leading "~" = unknown length)
 }
 
 // The proxied variant: one real backend serves un.C18 with the handlers of
@@ -354,7 +355,18 @@ func execute(c Case, unaryInt, streamInt, withStats bool, behaviour string) (run
 		}
 		req = drive.Request("POST", pathOf[c.Shape], "", hdr, bytes.NewReader(body.Bytes()), cl)
 	case "httpget":
-		req = drive.Request("GET", "/c18/unary/abc", "", hdr, nil, 0)
+		if c.StrayBody == "" {
+			req = drive.Request("GET", "/c18/unary/abc", "", hdr, nil, 0)
+		} else {
+			// the binding maps no body: the message is still built from the URL alone
+			hdr.Set("Content-Type", "application/json")
+			b := strings.TrimPrefix(c.StrayBody, "~")
+			cl := int64(len(b))
+			if b != c.StrayBody {
+				cl = -1
+			}
+			req = drive.Request("GET", "/c18/unary/abc", "", hdr, strings.NewReader(b), cl)
+		}
 	case "grpc", "grpcweb":
 		for _, n := range c.Sizes {
 			b, _ := proto.Marshal(msgOfSize(w, n))
@@ -538,6 +550,7 @@ func genCase(t *rapid.T) Case {
 	c.Transport = rapid.SampledFrom([]string{"http", "grpc", "grpcweb"}).Draw(t, "transport")
 	if c.Shape == "unary" && rapid.IntRange(0, 4).Draw(t, "get") == 0 {
 		c.Transport = "httpget"
+		c.StrayBody = rapid.SampledFrom([]string{"", "", "{}", `{"f_int32":7}`, "~{}", `~{"f_string":"other"}`}).Draw(t, "strayBody")
 	}
 	sizeGen := rapid.SampledFrom([]int{0, 2, 3, 4, 5, 6, 7, 40, 200})
 	n := 1
@@ -590,7 +603,7 @@ func TestPropProxied(t *testing.T) {
 		c := genCase(t)
 		c.Proxied = true
 		if c.Transport == "httpget" {
-			c.Transport = "http" // the annotation routes of the local world are not part of the backend's implicit bindings
+			c.Transport, c.StrayBody = "http", "" // the annotation routes of the local world are not part of the backend's implicit bindings
 		}
 		vs := Check(c)
 		key := ""
